@@ -41,7 +41,16 @@ TruncVerdict(c) ==
           /\ RangeS(c.after) \subseteq AllStamps(c)
        THEN "ok" ELSE "bad"
 
-Verdict(c) == IF c.t = "dmg" THEN DmgVerdict(c) ELSE TruncVerdict(c)
+(* recover_entries_after(x): the entries stamped >= x, in append order (file by file, entry by entry) *)
+RECURSIVE Flat(_, _, _)
+Flat(files, k, base) ==    \* sequence of [g |-> global index, st |-> stamp]
+  IF k > Len(files) THEN <<>>
+  ELSE [i \in 1..Len(files[k]) |-> [g |-> base + i, st |-> files[k][i]]] \o Flat(files, k + 1, base + Len(files[k]))
+OrderVerdict(c) ==
+  IF "panic" \in DOMAIN c \/ c.err # "" THEN "bad"
+  ELSE LET want == SelectSeq(Flat(c.stamps, 1, 0), LAMBDA e : e.st >= c.x) IN
+       IF c.got = [i \in 1..Len(want) |-> want[i].g] THEN "ok" ELSE "bad"
+Verdict(c) == IF c.t = "dmg" THEN DmgVerdict(c) ELSE IF c.t = "order" THEN OrderVerdict(c) ELSE TruncVerdict(c)
 
 TraceInit == l = 1 /\ sizes = <<>> /\ dmg = NoDamage
 TraceNext ==
